@@ -254,7 +254,8 @@ fn run_one(kind: &str, sub: Sub, seed: u64, replay: Option<Vec<u8>>) -> (sched::
             }
             for i in 0..nops {
                 let v = (p as u32 + 1) * 1000 + i as u32;
-                let c = if is_susp { orng.below(6) } else { orng.below(10) };
+                // (susp: the other producers use plain sends -- and, where the channel allocates before the await, asynchronous ones too)
+                let c = if is_susp { if zc && kind != "mcrossbeam" { orng.below(9) } else { orng.below(6) } } else { orng.below(10) };
                 let plain_ok = is_susp || susp_fifo.lock().unwrap().is_empty() || kind != "matomic";
                 if c < 4 && plain_ok {
                     let pos = ctx.call(p, &format!("send {v}"));
@@ -288,9 +289,18 @@ fn run_one(kind: &str, sub: Sub, seed: u64, replay: Option<Vec<u8>>) -> (sched::
                             }
                             gate.store(true, SeqCst);
                             ctx.call(p, "resume");
-                            match fut.as_mut().poll(&mut cx) {
-                                Poll::Ready(ok) => { ctx.ret(if ok { "ok" } else { "full" }); sh.lock().unwrap().evs.push(Ev { who: p, what: "sent".into(), v, pos }); }
-                                Poll::Pending => panic!("send_with_async still pending after its setter completed"),
+                            // its setter has completed: the send must now complete by itself (it is re-polled as an executor would
+                            // re-poll a task that yields), whatever other sends are suspended meanwhile
+                            let mut tries = 0;
+                            loop {
+                                match fut.as_mut().poll(&mut cx) {
+                                    Poll::Ready(ok) => { ctx.ret(if ok { "ok" } else { "full" }); sh.lock().unwrap().evs.push(Ev { who: p, what: if ok { "sent".into() } else { "rejected".into() }, v, pos }); break }
+                                    Poll::Pending => {
+                                        tries += 1;
+                                        if tries > 60 { ctx.ret("stuck"); sh.lock().unwrap().evs.push(Ev { who: p, what: "async_stuck".into(), v, pos }); std::mem::forget(fut); break }
+                                        ctx.yield_point("h.repoll", 0);
+                                    }
+                                }
                             }
                             if !zc { let mut f = susp_fifo.lock().unwrap(); if let Some(i) = f.iter().position(|x| *x == p) { f.remove(i); } }
                         }
@@ -409,6 +419,10 @@ fn run_one(kind: &str, sub: Sub, seed: u64, replay: Option<Vec<u8>>) -> (sched::
     for g in &got {
         if g.v < 500 || (g.v >= 600 && !sent.iter().any(|e| e.v == g.v)) { if !(500..600).contains(&g.v) { viol.push(("invented".into(), format!("stream {} yielded {} which no successful send carried", g.who - 100, g.v))); } }
         if let Some(p) = seen.insert(g.v, g.who) { viol.push(("duplicate".into(), format!("event {} yielded twice (streams {} and {})", g.v, p - 100, g.who - 100))); }
+    }
+    for e in s.evs.iter().filter(|e| e.what == "async_stuck") {
+        let other_suspended = s.evs.iter().any(|x| x.what == "suspended") && !s.evs.iter().any(|x| x.what == "others_finished");
+        viol.push(("blocked_by_suspended_send".into(), format!("the send_with_async of event {} (producer {}) stayed pending through 60 re-polls after its own setter had completed{} (kind {kind})", e.v, e.who, if other_suspended { " while another send_with_async was suspended" } else { "" })));
     }
     for r in s.evs.iter().filter(|e| e.what == "rejected") { if seen.contains_key(&r.v) { viol.push(("rejected_delivered".into(), format!("event {} was rejected (buffer full) but a stream yielded it", r.v))); } }
     // per-producer order within one stream
